@@ -94,7 +94,7 @@ OBJ = {"none": None, "int": 5, "empty": "", "float": 1.5, "strnum": "7", "str": 
        "date_dashed": "2015-05-22", "nodate": "Fedora-22", "label_ga": "GA", "label_noversion": "RC", "label_onepart": "RC-1",
        "label_unknown": "Gamma-1.0", "label_threepart": "RC-1.0.0", "label_lower": "rc-1.0", "trailingdot": "1.", "doubledot": "1..2",
        "alnum": "1a", "dash": "a-b", "space": "a b", "md5_short": "abc123", "md5_upper": "A" * 32, "md5_31": "a" * 31,
-       "layered": "layered-product"}
+       "layered": "layered-product", "variantid": "Server"}
 DOC = dict(OBJ)
 DOC.update({"emptyset": [], "int_date": 20150522})
 INI = {"trailingdot": "1.", "alnum": "1a", "str": "maybe", "empty": "", "zero": "0", "dash": "a-b", "unknown": "bogus-value",
@@ -107,6 +107,15 @@ def corrupt_object(fmt, obj, node_index, field, cls):
         setattr(node, field, getattr(node, field).upper())
     elif cls == "misaligned":
         node.uid = node.uid + "x"
+    elif cls == "dashvariant":
+        node.uid = node.uid.replace("-", "", 1)
+    elif cls == "doubledash":
+        node.uid = node.uid.replace("-", "--", 1)
+    elif cls == "arch_unreferenced":
+        tree = node._metadata.tree
+        if tree.arch not in node.images:
+            raise core.MachineryError("sample has no image table for the tree arch")
+        tree.platforms.discard(tree.arch)
     elif cls == "foreign":
         node.arches = set(node.arches) | set(["s390x"])
     elif cls == "nonempty":
@@ -172,6 +181,9 @@ def corrupt_document(fmt, text, obj, case):
                 ini.p.set(sec, "id", ini.p.get(sec, "id") + "x")
             else:
                 ini.p.set(sec, field, INI[cls])
+        elif kind == "ti.images" and cls == "arch_unreferenced":
+            arch = ini.p.get("tree", "arch")
+            ini.p.set("tree", "platforms", ",".join(p for p in ini.p.get("tree", "platforms").split(",") if p != arch))
         elif kind == "ti.images":
             if field == "image_paths":
                 sec = [s for s in ini.p.sections() if s.startswith("images-")][0]
@@ -222,6 +234,10 @@ def corrupt_document(fmt, text, obj, case):
             n[field] = n[field].upper()
         elif cls == "misaligned":
             n["uid"] = n["uid"] + "x"
+        elif cls == "dashvariant":
+            n["uid"] = n["uid"].replace("-", "", 1)
+        elif cls == "doubledash":
+            n["uid"] = n["uid"].replace("-", "--", 1)
         elif cls == "foreign":
             n["arches"] = sorted(set(n["arches"]) | set(["s390x"]))
         elif cls == "nonempty":
@@ -397,8 +413,9 @@ def eval_doc(case):
     text = obj.dumps()
     kind, arg = case["kind"], case["arg"]
     what = "%s document: %s %s %s" % (case["sample"], kind, arg, case.get("ver", ""))
+    # "valid_elsewhere": the sample's own release version - valid for another field called version
     mang = {"nonnumeric": "abc", "onepart": "1", "threepart": "1.2.3", "empty": "", "null": None, "float": 1.2, "trailing_x": "1.x",
-            "negative": "-1.0"}
+            "negative": "-1.0", "valid_elsewhere": "22"}
     if fmt == "discinfo":
         lines = text.split("\n")
         bad = "\n".join(lines[:2]) if arg == "line3" else lines[0]
